@@ -212,7 +212,7 @@ PROPS["C11"] = {
     "level": "proof",
     "widen": ("quick", 1),
     "streams": ["watch", "cache"],
-    "ops": ["events", "history", "bigdir", "slowscan", "permrestore"],
+    "ops": ["events", "history", "bigdir", "slowscan", "overflow", "permrestore"],
     "timeout": 2400,
     "trusted_base": ["inotify event generation as abstracted by the model's event table (validated against a plain fsnotify watcher on every run): which operations produce an event that passes the watcher's filter",
                      "fsnotify delivers queued events in order and does not overflow its queue for these histories",
